@@ -1026,3 +1026,116 @@ func checkCarriedStructFields(p *Program, r *Report, k *ssa.Function, key string
 		}
 	})
 }
+
+// checkEntryReplacement (R06.10): a state is not replaced on the way in. The value a carried variable enters the
+// time loop with is the state argument on every path; where one path into the loop brings the state and another
+// brings a value that does not depend on it but on the inputs or parameters (`if storage <= 0 { storage = f(inflow[0]) }`
+// — "no state supplied, start from the first input"), the state's own value decides whether it is believed: the
+// uninterrupted run carries the sentinel value on (an empty store stays empty), while a hot start from the very
+// same value jumps to the derived one. A constant replacement is not judged (R06.8's territory: a clamp).
+func checkEntryReplacement(p *Program, r *Report, models []*Model) {
+	r.Rule("R06.10", "a state is not replaced on the way in: for every variable carried around a kernel's time loop whose entry value comes from a state argument on some path, no other path into the loop brings a value that is independent of that state and computed from inputs or parameters (a sentinel test on the state deciding whether the state is believed)")
+	n := 0
+	for _, m := range models {
+		k := m.Kernel
+		if k == nil || len(m.States) == 0 {
+			continue
+		}
+		key := m.RelPkg + "." + k.Name()
+		states := map[ssa.Value]string{}
+		for i := range m.States {
+			if len(m.Inputs)+i < len(k.Params) {
+				states[k.Params[len(m.Inputs)+i]] = m.States[i]
+			}
+		}
+		stateOf := func(v ssa.Value) string {
+			name := ""
+			dependsOn(v, func(x ssa.Value) bool {
+				if nm, ok := states[x]; ok {
+					name = nm
+					return true
+				}
+				return false
+			}, map[ssa.Value]bool{})
+			return name
+		}
+		// does v derive from anything but constants?
+		derived := func(v ssa.Value) bool {
+			return dependsOn(v, func(x ssa.Value) bool {
+				switch y := x.(type) {
+				case *ssa.Parameter:
+					return true
+				case *ssa.Call:
+					return y.Common().IsInvoke() || y.Common().StaticCallee() == nil || InModule(y.Common().StaticCallee())
+				case *ssa.UnOp:
+					return y.Op == token.MUL
+				}
+				return false
+			}, map[ssa.Value]bool{})
+		}
+		for _, l := range timeLoops(k) {
+			for _, ins := range l.Header.Instrs {
+				phi, ok := ins.(*ssa.Phi)
+				if !ok {
+					break
+				}
+				for ei, e := range phi.Edges {
+					if ei >= len(l.Header.Preds) || l.Blocks[l.Header.Preds[ei]] {
+						continue
+					}
+					// the alternatives merged before the loop
+					var alts []ssa.Value
+					seen := map[ssa.Value]bool{}
+					var open func(v ssa.Value)
+					open = func(v ssa.Value) {
+						if seen[v] {
+							return
+						}
+						seen[v] = true
+						if ph, ok := v.(*ssa.Phi); ok && !l.Blocks[ph.Block()] {
+							for _, pe := range ph.Edges {
+								open(pe)
+							}
+							return
+						}
+						alts = append(alts, v)
+					}
+					open(e)
+					if len(alts) < 2 {
+						continue
+					}
+					st := ""
+					for _, a := range alts {
+						if s := stateOf(a); s != "" {
+							st = s
+						}
+					}
+					if st == "" {
+						continue
+					}
+					n++
+					okey := fmt.Sprintf("%s:entry-replace:%s", key, st)
+					bad := false
+					for _, a := range alts {
+						if stateOf(a) != "" {
+							continue
+						}
+						if _, isC := a.(*ssa.Const); isC || !derived(a) {
+							continue
+						}
+						bad = true
+						pos := phi.Pos()
+						if ai, ok := a.(ssa.Instruction); ok && ai.Pos().IsValid() {
+							pos = ai.Pos()
+						}
+						r.Fail("R06.10", okey, p.Pos(pos), fmt.Sprintf("the variable carried around the time loop enters it with state `%s` on one path and, on another, with a value computed from inputs or parameters that does not depend on the state: the state's own value decides whether it is believed, so a hot start from a value the uninterrupted run carries on (an empty store) jumps to the derived value and the split run departs from the uninterrupted one", st))
+					}
+					if !bad {
+						r.OK("R06.10", fmt.Sprintf("%s: every path into the time loop brings state `%s` (or a constant) to the carried variable", key, st))
+					}
+				}
+			}
+		}
+	}
+	r.Analysed["R06.10 carried variables with alternative entry values"] = n
+}
